@@ -49,7 +49,7 @@ NEEDS_TABLES = True
 PROGRAMS = collections.OrderedDict([
     ('p-var', 'var a = 1;'),
     ('p-func', 'function f(x) {\n  return x + 1;\n}\nf(2);\n'),
-    ('p-nonascii', 'var s = "é€\\n", t = [1, 2];'),
+    ('p-nonascii', 'var s = "\u00e9\u20ac\\n", t = [1, 2];'),
     ('p-empty', ''),
     ('p-lines', 'var a = {\n  b: 1,\n  c: "x"\n};\nif (a) {\n  a.b++;\n}\n'),
     ('e-parse', 'var = ;'),
